@@ -1,5 +1,5 @@
 SPECIFICATION Spec
-CONSTANT B2Set <- B2All
+CONSTANT B2Set <- B2Quick
 INVARIANT LenBounds
 INVARIANT PrefixClosed
 INVARIANT NoPrePre
